@@ -341,6 +341,7 @@ SIGS = {
     "interp1d": ["x", "y", "kind", "axis", "copy", "bounds_error", "fill_value", "assume_sorted"],
     "signal.windows.kaiser": ["M", "beta", "sym"],
 }
+CANON = {"kaiser": "signal.windows.kaiser", "lfilter": "signal.lfilter", "upfirdn": "signal.upfirdn", "interp1d": "interp1d", "gcd": "math.gcd"}
 KEEP_POS = 1          # how many leading parameters of a SIGS function stay positional in the value
 NP_METHODS = {"sum", "mean", "cumsum", "all", "any", "max", "min", "nonzero", "swapaxes", "transpose", "ravel", "reshape", "std", "var", "prod",
               "argmax", "argmin", "flatten", "squeeze", "conj", "round", "clip", "dot", "argsort", "repeat", "take", "tolist", "item", "cumprod"}
@@ -482,8 +483,10 @@ class V:
             return self.rank(args[0])
         if nm == "loopres":
             return self.rank(args[2])
-        if nm in ("len", "attr:size", "attr:ndim", "ceil", "floor", "int"):
+        if nm in ("len", "attr:size", "attr:ndim"):
             return 0
+        if nm in ("floor", "int"):
+            return self.rank(args[0])
         if nm == "attr:shape":
             return 1
         if nm in ("floordiv", "max", "min", "pow", "mod"):
@@ -849,6 +852,12 @@ class V:
                         out.extend(v)
                     elif len(node.elts) == 1:
                         return v            # [*x] / (*x,): the sequence x itself
+                    elif self._shape_seq(v) and e is node.elts[0] and not any(isinstance(x, ast.Starred) for x in node.elts[1:]):
+                        rest = PyTuple(self.ev(x) for x in node.elts[1:])          # (*shape[:-1], n)  =  shape[:-1] + [n]
+                        try:
+                            return F.fn("seqcat", as_rat(v), as_rat(rest))
+                        except Unsupported as ex:
+                            return Unknown(str(ex))
                     else:
                         return Unknown("starred element of unknown length")
                 else:
@@ -980,7 +989,24 @@ class V:
                     return r
         except Unsupported:
             pass
-        return F.fn("floordiv", a, b)
+        try:
+            return F.fn("floor", a / b)          # a // b = floor(a / b);  ceil(x) = -floor(-x): `-(-a // b)` and `ceil(a / b)` are one value
+        except Unsupported:
+            return F.fn("floordiv", a, b)
+
+    def integral(self, v):
+        """integer-valued by construction: integer combinations of floor(...) atoms, loop counters and integers"""
+        if not israt(v) or not v.d.is_const():
+            return False
+        sc = 1 / v.d.const_value()
+        for m, c in v.n.t.items():
+            if (c * sc).denominator != 1:
+                return False
+            for a, _e in m:
+                d = F.atom_desc(a)
+                if not ((d[0] == "s" and d[1] in self.sh.index_syms) or (d[0] == "fn" and d[1] in ("floor", "len"))):
+                    return False
+        return True
 
     def compare(self, node):
         vals = [self._ev(node.left)] + [self._ev(c) for c in node.comparators]
@@ -1119,6 +1145,8 @@ class V:
 
     def np_call(self, name, pos, kw, node):
         """numpy / builtin spellings with one meaning get one value"""
+        if name.startswith("numpy."):
+            name = "np." + name[6:]
         for v in list(pos) + list(kw.values()):
             if is_unknown(v):
                 return v
@@ -1176,17 +1204,17 @@ class V:
                 return pos[1] if c else pos[2]
             return self.ite(pos[0], pos[1], pos[2])
         if name == "int" and n == 1 and israt(pos[0]):
-            for fnm, out in (("call:np.ceil", "ceil"), ("call:np.floor", "floor"), ("ceil", "ceil"), ("floor", "floor")):
-                a = un(pos[0], fnm)
-                if a is not None and len(a) == 1:
-                    return F.fn(out, a[0])
-            if int_of(pos[0]) is not None or self.intlike(pos[0]):
+            if int_of(pos[0]) is not None or self.integral(pos[0]):
                 return pos[0]
             return F.fn("int", pos[0])
-        if name in ("math.ceil", "math.floor") and n == 1 and israt(pos[0]):
-            return F.fn(name[5:], pos[0])
-        if name in ("np.zeros", "np.ones", "np.empty") and n >= 1:
-            return F.fn(name[3:], as_rat(pos[0]))
+        if name in ("math.ceil", "math.floor", "np.ceil", "np.floor") and n == 1 and not kw and israt(pos[0]):
+            if self.integral(pos[0]):
+                return pos[0]
+            return F.fn("floor", pos[0]) if name.endswith("floor") else -F.fn("floor", -pos[0])
+        if name == "np.arange" and n == 2 and not kw and israt(pos[0]) and pos[0].is_zero():
+            return self.np_call(name, pos[1:], kw, node)
+        if name in ("np.zeros", "np.ones", "np.empty") and (n >= 1 or "shape" in kw):
+            return F.fn(name[3:], as_rat(pos[0] if n else kw["shape"]))
         if name in ("np.zeros_like", "np.ones_like", "np.empty_like") and n >= 1 and israt(pos[0]):
             kind = name[3:-5]
             for k0 in ("zeros", "ones", "empty"):
@@ -1242,8 +1270,9 @@ class V:
     def record(self, name, pos, kw, node, callee):
         """an opaque application; positional arguments beyond the first are placed on the signature when it is known"""
         args = None
-        if name.startswith("scipy."):
-            name = name[6:]
+        if name.startswith("numpy."):
+            name = "np." + name[6:]
+        name = CANON.get(name.rsplit(".", 1)[-1], name) if not name.startswith("np.") else name      # one name for a library routine however it was imported
         if name in SIGS:
             sig = SIGS[name]
             if len(pos) <= len(sig):
